@@ -625,8 +625,20 @@ package values
 //@ assigns nothing
 
 // sort: "key": the comparator never panics, whatever the elements are (C01, C15)
+// and orders by that property: elements without the property sort first or last as requested,
+// two such elements are unordered, otherwise values.Less decides
 //@ func (values.sortableByProperty).Less
 //@ props C01 C15
 //@ panics nothing
 //@ requires inrange: 0 <= i && i < len(s.data) && 0 <= j && j < len(s.data)
 //@ assigns nothing
+//@ ghost a Val = nil
+//@ ghost b Val = nil
+//@ at call index #1 before assert left: arg0 == i
+//@ at call index #1: a = result
+//@ at call index #2 before assert right: arg0 == j
+//@ at call index #2: b = result
+//@ ensures bothMissing: a == nil && b == nil ==> !result
+//@ ensures leftMissing: a == nil && b != nil ==> result == s.nilFirst
+//@ ensures rightMissing: a != nil && b == nil ==> result == !s.nilFirst
+//@ ensures ordered: a != nil && b != nil ==> result == values.Less(a, b)
